@@ -56,8 +56,10 @@ WHAT = {
     "c12_vector_reduce": "vector_sum / vector_dot exact",
     "c12_vector_take": "vector_take == gather by mask",
     "c12_rope_slice": "real rope: slice of owned == flat (len, byte_at, to_vec, find_byte)",
+    "c12_rope_slice_window": "real rope: a one-byte Slice window of a two-byte buffer: len, byte_at, find_byte confined to the window",
     "c12_rope_concat": "real rope: concat of owned (and a slice across the seam) == flat",
     "c12_rope_zeroed": "real rope: zero fill == flat",
+    "c12_rope_concat_pair": "real rope: concat of two one-byte buffers: len, byte_at, find_byte from every offset",
     "c12_rope_tiled": "real rope: tiled length is the mathematical product for EVERY count (never wraps under the size limit), content periodic",
     "c12_rope_tiled_small": "real rope: tiled() normalisation of small/degenerate repetitions == flat",
 }
@@ -66,14 +68,14 @@ WHAT = {
 QUICK = {
     "c12_binary_get__9", "c12_binary_slice__3", "c12_binary_new", "c12_binary_repeat__3",
     "c12_integer_bitwise", "c12_integer_shift", "c12_vector_get__8", "c12_rope_tiled__1", "c12_rope_tiled__2",
-    "c12_rope_zeroed__3", "c12_rope_tiled_small__2_0",
+    "c12_rope_zeroed__3", "c12_rope_tiled_small__2_0", "c12_rope_slice_window__0", "c12_rope_slice_window__1", "c12_rope_concat_pair",
 }
 
 # Harnesses that exist but are NOT part of the claim: CBMC runs out of memory on them (Vec-building
 # bodies, recursion through Rc children).  They can be run explicitly with C12_ONLY=<regex>.
 NOT_CLAIMED = {
     r"c12_binary_set__": "CBMC out of memory / time-out (> 20 GB, > 20 min) on the 9-10 byte read-modify-write body",
-    r"c12_rope_slice__|c12_rope_concat__": "BinaryData::len/byte_at recurse through Rc children; CBMC cannot see the heap-resident variant and unwinds every arm at every level (out of memory)",
+    r"c12_rope_slice__|c12_rope_slice_small__|c12_rope_concat__": "BinaryData::len/byte_at recurse through Rc children; CBMC cannot see the heap-resident variant and unwinds every arm at every level (out of memory)",
 }
 
 
@@ -191,7 +193,12 @@ def main():
                 for call in dec:
                     verdicts = []
                     for prof, qv in (("dev", qv_dev), ("release", qv_rel)):
-                        res = qv.req(op="builtin", name=call["builtin"], arg=call["arg"])
+                        if "program" in call:
+                            # replay through a source-level program (real compiler + executor)
+                            cc = qv.compile(call["program"], dump=False)
+                            res = qv.req(op="run", h=cc["h"]) if cc.get("ok") else {"ok": False, "error": cc}
+                        else:
+                            res = qv.req(op="builtin", name=call["builtin"], arg=call["arg"])
                         bad = M.judge(call, res.get("result", {}) if res.get("ok") else {"panic": json.dumps(res)[:200]})
                         if bad:
                             verdicts.append((prof, bad))
@@ -204,7 +211,7 @@ def main():
                         seen_keys.add(key)
                         rep.violation(key, "__%s__ %s: %s (profiles: %s) on %s" % (
                             call["builtin"], kind, verdicts[0][1]["detail"], ",".join(p for p, _ in verdicts),
-                            M.show_arg(call["arg"])),
+                            call.get("program") or M.show_arg(call["arg"])),
                             {"builtin": call["builtin"], "arg": call["arg"], "verdicts": verdicts,
                              "harness": name, "failed_checks": r.failed_checks})
             if not confirmed:
